@@ -75,7 +75,7 @@ void Exec::op_heap(const Op& op) {
     if (h < 2 || h >= NHEAPS || m.heaps[h].alive) return;
     Hp& H = m.heaps[h]; std::string kind = op.str("kind", "new"); mi_heap_t* hp = nullptr; H = Hp();
     if (kind == "new") { hp = mi_heap_new(); H.kind = 1; H.destroyable = true; }
-    else if (kind == "ex") { int tag = (int)op.num("tag", 0) & 255; bool d = op.num("d", 0) != 0; int ai = op.has("ar") ? (int)op.num("ar") : -1;
+    else if (kind == "ex") { int tag = (int)op.num("tag", 0) & 255; if (forced_abandon && tag != 0) { count(C_EXCLUDED); tag = 0; } bool d = op.num("d", 0) != 0; int ai = op.has("ar") ? (int)op.num("ar") : -1;
       mi_arena_id_t aid = 0; if (ai >= 0) { if (ai >= NARENAS || !m.arenas[ai].valid) return; aid = m.arenas[ai].id; }
       hp = mi_heap_new_ex(tag, d, aid); H.kind = 3; H.tag = tag; H.arena = ai; H.destroyable = d; }
     else if (kind == "arena") { int ai = (int)op.num("ar"); if (ai < 0 || ai >= NARENAS || !m.arenas[ai].valid) return; hp = mi_heap_new_in_arena(m.arenas[ai].id); H.kind = 2; H.arena = ai; }
@@ -89,6 +89,7 @@ void Exec::op_heap(const Op& op) {
   if (nm == "hdefault") { mi_heap_t* old = mi_heap_set_default(H.h); if (old != heap_of(m.def)) fail_now("set-default-old", "op#%ld mi_heap_set_default returned %p, expected previous default %p", opi, old, heap_of(m.def)); m.def = h; return; }
   if (h < 2) return;   // never delete/destroy the backing heap (documented precondition)
   bool destroy = (nm == "hdestroy") && H.destroyable;
+  if (forced_abandon && destroy) { count(C_EXCLUDED); return; }   // pages of the heap may have been abandoned and re-homed: "its blocks" is no longer known to the model
   if (nm != "hdel" && nm != "hdestroy") return;
   if (!destroy && H.tag != 0) {   // guard: pages of a tagged heap that get abandoned are reclaimed by whichever thread comes first; without a heap of
     // that tag there, the allocator reports an error by design ("page with tag %u cannot be reclaimed by a heap with the same tag")
@@ -170,19 +171,19 @@ void Exec::op_visit(const Op& op) {
       Blk& b = m.slots[found];
       if ((uintptr_t)b.p + b.u > hi && b.u > 0) fail_now("visit-enclose", "op#%ld visited range [%p,+%zu) does not enclose block %p usable %zu", opi, (void*)lo, v.s, b.p, b.u);
       if (b.home == h) { if (!matched.insert(found).second) fail_now("visit-twice", "op#%ld block %p visited twice", opi, b.p); }
-      else if (b.home >= 1) fail_now("visit-wrong-heap", "op#%ld heap %d walk reported block %p whose home is heap %d", opi, h, b.p, b.home);
+      else if (b.home >= 1 && !forced_abandon) fail_now("visit-wrong-heap", "op#%ld heap %d walk reported block %p whose home is heap %d", opi, h, b.p, b.home);
       // home < 0: floating (abandoned / adopted) — allowed in a reclaiming heap
     } else {
       bool desc = false;
-      if (h == 1) for (int g = 2; g < NHEAPS; g++) if (m.heaps[g].alive && (uintptr_t)m.heaps[g].h >= lo && (uintptr_t)m.heaps[g].h < hi) desc = true;
+      if (h == 1 || forced_abandon) for (int g = 2; g < NHEAPS; g++) if (m.heaps[g].alive && (uintptr_t)m.heaps[g].h >= lo && (uintptr_t)m.heaps[g].h < hi) desc = true;
       if (desc) descriptors++;
       else fail_now("visit-phantom", "op#%ld heap %d walk reported [%p,+%zu) which is not a live block", opi, h, (void*)lo, v.s);
     }
     for (auto& a : c.areas) if (lo >= a.blocks && lo < a.blocks + a.reserved) { a.seen++; break; }
   }
   if (!stopped) {
-    for (auto& kv : m.live) { Blk& b = m.slots[kv.second]; if (b.home == h && !matched.count(kv.second)) fail_now("visit-missing", "op#%ld heap %d walk did not report live block %p (n=%zu)", opi, h, b.p, b.n); }
-    if (h == 1) { size_t nd = 0; for (int g = 2; g < NHEAPS; g++) if (m.heaps[g].alive) nd++; if (descriptors != nd) fail_now("visit-descriptors", "op#%ld backing heap walk reported %zu heap descriptors, %zu heaps exist", opi, descriptors, nd); }
+    if (!forced_abandon) for (auto& kv : m.live) { Blk& b = m.slots[kv.second]; if (b.home == h && !matched.count(kv.second)) fail_now("visit-missing", "op#%ld heap %d walk did not report live block %p (n=%zu)", opi, h, b.p, b.n); }
+    if (h == 1) { size_t nd = 0; for (int g = 2; g < NHEAPS; g++) if (m.heaps[g].alive) nd++; if (descriptors != nd && !(forced_abandon && descriptors < nd)) fail_now("visit-descriptors", "op#%ld backing heap walk reported %zu heap descriptors, %zu heaps exist", opi, descriptors, nd); }
     size_t holes = 0, full = 0;
     for (auto& a : c.areas) {
       if (a.seen != a.used) fail_now("visit-area-used", "op#%ld area %p: used=%zu but %zu blocks were reported in it", opi, (void*)a.blocks, a.used, a.seen);
@@ -193,11 +194,51 @@ void Exec::op_visit(const Op& op) {
   }
 }
 
+// census: walk every heap of this thread and (when enabled) the abandoned segments: every live block exactly once, nothing else
+void Exec::op_census(const Op& op) {
+  std::vector<VisitRec> all; std::vector<int> from;   // from: heap index or 0 for abandoned
+  for (int h = 1; h < NHEAPS; h++) { if (!m.heaps[h].alive) continue; Hp& H = m.heaps[h]; if (H.pending_remote) { mi_heap_collect(H.h, false); H.pending_remote = false; }
+    VisitCtx c; c.heap = H.h; mi_heap_visit_blocks(H.h, true, &visit_cb, &c); for (auto& v : c.blocks) { all.push_back(v); from.push_back(h); } }
+  bool with_abandoned = visit_abandoned_on;
+  if (with_abandoned) { VisitCtx c; bool ok = mi_abandoned_visit_blocks(mi_subproc_main(), (int)op.snum("tag", -1), true, &visit_cb, &c); if (!ok) fail_now("avisit-ret", "op#%ld mi_abandoned_visit_blocks returned false although the visitor never did", opi);
+    for (auto& v : c.blocks) { all.push_back(v); from.push_back(0); } if (!c.blocks.empty()) flag(F_ABANDONED_VISIT); }
+  flag(F_VISIT); count(C_VISITED_BLOCKS, all.size());
+  std::set<int> matched; size_t descriptors = 0;
+  for (size_t i = 0; i < all.size(); i++) {
+    uintptr_t lo = all[i].b, hi = lo + (all[i].s ? all[i].s : 1); int found = -1, nfound = 0;
+    for (auto it = m.live.lower_bound(lo); it != m.live.end() && it->first < hi; ++it) { found = it->second; nfound++; }
+    if (nfound > 1) fail_now("census-two", "op#%ld visited range [%p,+%zu) contains %d live blocks", opi, (void*)lo, all[i].s, nfound);
+    if (nfound == 1) {
+      Blk& b = m.slots[found];
+      if ((uintptr_t)b.p + b.u > hi && b.u > 0) fail_now("census-enclose", "op#%ld visited range [%p,+%zu) does not enclose block %p usable %zu", opi, (void*)lo, all[i].s, b.p, b.u);
+      if (!matched.insert(found).second) fail_now("census-twice", "op#%ld block %p reported twice (heap walks + abandoned walk)", opi, b.p);
+      if (from[i] == 0 && b.home >= 1 && !forced_abandon && !b.stranded) fail_now("census-abandoned-owned", "op#%ld abandoned walk reported block %p whose home is heap %d of a live thread", opi, b.p, b.home);
+      if (from[i] >= 1 && b.home >= 1 && b.home != from[i] && !forced_abandon) fail_now("census-wrong-heap", "op#%ld heap %d walk reported block %p whose home is heap %d", opi, from[i], b.p, b.home);
+    } else {
+      bool desc = false; if (from[i] == 1 || forced_abandon) for (int g = 2; g < NHEAPS; g++) if (m.heaps[g].alive && (uintptr_t)m.heaps[g].h >= lo && (uintptr_t)m.heaps[g].h < hi) desc = true;
+      if (desc) descriptors++; else fail_now("census-phantom", "op#%ld %s walk reported [%p,+%zu) which is not a live block", opi, from[i] ? "heap" : "abandoned", (void*)lo, all[i].s);
+    }
+  }
+  for (auto& kv : m.live) { Blk& b = m.slots[kv.second]; if (matched.count(kv.second) || b.stranded) continue;
+    bool must = with_abandoned ? (op.snum("tag", -1) < 0) : (b.home >= 1 && !forced_abandon);
+    if (must) fail_now("census-missing", "op#%ld live block %p (n=%zu home=%d) is reported neither by a heap walk nor by the abandoned walk", opi, b.p, b.n, b.home); }
+}
+
 // ---------------------------------------------------------------- options / time / arenas
 static const char* OPT_NAMES[] = { "show_errors","show_stats","verbose","eager_commit","arena_eager_commit","purge_decommits","allow_large_os_pages","reserve_huge_os_pages","reserve_huge_os_pages_at","reserve_os_memory","deprecated_segment_cache","deprecated_page_reset","abandoned_page_purge","deprecated_segment_reset","eager_commit_delay","purge_delay","use_numa_nodes","disallow_os_alloc","os_tag","max_errors","max_warnings","max_segment_reclaim","destroy_on_exit","arena_reserve","arena_purge_mult","purge_extend_delay","abandoned_reclaim_on_free","disallow_arena_alloc","retry_on_oom","visit_abandoned","guarded_min","guarded_max","guarded_precise","guarded_sample_rate","guarded_sample_seed","target_segments_per_thread","generic_collect" };
 static int opt_index(const std::string& name) { for (int i = 0; i < (int)(sizeof OPT_NAMES / sizeof *OPT_NAMES); i++) if (name == OPT_NAMES[i]) return i; return -1; }
 
-void Exec::op_opt(const Op& op) { int i = opt_index(op.str("name")); if (i < 0) return; mi_option_set((mi_option_t)i, (long)op.snum("v")); }
+void Exec::op_opt(const Op& op) {
+  int i = opt_index(op.str("name")); if (i < 0) return; long v = (long)op.snum("v");
+  if (op.str("name") == "target_segments_per_thread" && v >= 2) forced_abandon = true;   // the thread's own segments may be abandoned at any allocation
+  if (op.str("name") == "visit_abandoned") visit_abandoned_on = (v != 0);
+#if defined(VF_DEBUG_BUILD)
+  // debug build only: _mi_os_reset "pretends" an eager reset with memset(start,0,size) (MI_DEBUG>1 && !MI_SECURE), which faults when the
+  // purged span is only partly committed (lazy commit + purge by reset). Release/secure builds issue only the madvise and are checked.
+  if (op.str("name") == "purge_decommits" && v == 0) { count(C_EXCLUDED); return; }
+#endif
+  mi_option_set((mi_option_t)i, v);
+}
 
 void Exec::op_arena(const Op& op) {
   int i = (int)op.num("i"); if (i < 0 || i >= NARENAS || m.arenas[i].valid) return;
